@@ -616,3 +616,53 @@ def leaf_cond(leaf):
     if leaf.value is not None and isinstance(leaf.value, V) and not is1(leaf.value):
         ts.append(leaf.value)
     return ts
+
+
+
+def stage_profile(view, t, stop=None, dep=0):
+    """{(primitive signal key, symbolic number of register stages)}: the register-stage count on EVERY path from a primitive signal to term t (delay chains summarised as
+    delay(x, N), registers, single-definition comb wires followed).  `stop(key)` may name signals to be treated as primitive.  None if too deep."""
+    if dep > 14:
+        return None
+    if isinstance(t, Op) and t.op == "delay":
+        r_ = stage_profile(view, t.args[0], stop, dep + 1)
+        return None if r_ is None else {(s0, Op("+", (n0, t.args[1]))) for s0, n0 in r_}
+    if isinstance(t, Op):
+        out_ = set()
+        for a_ in t.args:
+            if isinstance(a_, Const):
+                continue
+            r_ = stage_profile(view, a_, stop, dep + 1)
+            if r_ is None:
+                return None
+            out_ |= r_
+        return out_
+    if isinstance(t, (Obj, Sym)):
+        k_ = key(t)
+        if stop is not None and stop(k_):
+            return {(k_, Const(0))}
+        dd_ = view.drivers(t)
+        if dd_ and all(d_.domain.startswith("sync") for d_ in dd_):
+            out_ = set()
+            for d_ in dd_:
+                if not isinstance(d_.value, V):
+                    continue
+                r_ = stage_profile(view, d_.value, stop, dep + 1)
+                if r_ is None:
+                    return None
+                out_ |= {(s0, Op("+", (n0, Const(1)))) for s0, n0 in r_}
+            return out_
+        cd_ = view.single_comb_def(t)
+        if cd_ is not None and not isinstance(cd_, Const):
+            return stage_profile(view, cd_, stop, dep + 1)
+        if dd_ and all(d_.domain == "comb" for d_ in dd_):
+            out_ = set()
+            for d_ in dd_:         # a comb signal with several guarded drivers: every driver's value and guards
+                for x_ in ([d_.value] if isinstance(d_.value, V) else []) + [c_ for c_, _ in d_.guards]:
+                    r_ = stage_profile(view, x_, stop, dep + 1)
+                    if r_ is None:
+                        return None
+                    out_ |= r_
+            return out_
+        return {(k_, Const(0))}
+    return set()
